@@ -437,8 +437,11 @@ class Run(object):
         ev = {'property_id': self.pid, 'tier': self.tier, 'seed': self.seed, 'level': self.level,
               'coverage': cov, 'assumptions': self.assumptions,
               'wall_s': round(time.time() - self.t0, 2), 'violations': len(self.violations)}
-        os.makedirs(os.path.join(VERIF, 'evidence'), exist_ok=True)
-        with open(os.path.join(VERIF, 'evidence', self.pid + '.json'), 'w') as f:
+        # evidence/ describes the tree at /repo; a run against another tree (VERIF_REPO: seeded or behaviour-preserving changes)
+        # leaves its record elsewhere
+        edir = 'evidence' if os.path.realpath(os.environ.get('VERIF_REPO', '/repo')) == '/repo' else 'evidence_other'
+        os.makedirs(os.path.join(VERIF, edir), exist_ok=True)
+        with open(os.path.join(VERIF, edir, self.pid + '.json'), 'w') as f:
             json.dump(ev, f, indent=1, sort_keys=True, default=str)
         if len(self.violations) > 25:
             print('(%d further violations not listed)' % (len(self.violations) - 25))
